@@ -110,13 +110,18 @@ LAW(L3_emptiness_enum, ENUM, 0, 0, 0, "equal bounds with at least one open end, 
   CHECK(anyAcc == !e, "internal: grid witness disagrees with emptyRef for " << show(i));
 }
 
-LAW(L3_emptiness, RC, 10000, 300000, 24, "equal bounds or lo>hi") {
+LAW(L3_emptiness, RC, 10000, 300000, 32, "equal bounds or lo>hi") {
   Iv i = genIv(c);
   if (c.oneIn(3)) i.hi = i.lo;
+  else if (c.oneIn(3) && std::isfinite(i.lo)) {  // bounds that differ by the smallest possible amounts (a tolerance-based test is wrong here)
+    if (c.flag()) i.lo = c.pick({0.0, 1e-30, -1e-30, 1e-5, -2e-7});
+    i.hi = c.flag() ? vf::ulpStep(i.lo, 1 + static_cast<int>(c.below(3))) : i.lo + c.pick({5e-324, 1e-300, 1e-30, 1e-21, 1e-19});
+  }
   if (std::isinf(i.lo) && i.lo == i.hi) throw vf::Skip();
   c.desc << "interval " << show(i);
-  c.nt(i.lo >= i.hi);
+  c.nt(i.lo >= i.hi || i.hi - i.lo < 1e-15);
   CHECK(mk(i)->isEmpty() == emptyRef(i), "isEmpty()=" << mk(i)->isEmpty() << " for " << show(i));
+  if (i.lo < i.hi) { double mid = i.lo / 2 + i.hi / 2; if (mid > i.lo && mid < i.hi) CHECK(mk(i)->isCorrect(mid) && !mk(i)->isEmpty(), "the interval accepts " << vf::dec(mid) << " but reports itself empty: " << show(i)); }
 }
 
 // ------------------------------------------------------------------ L2 intersection
@@ -331,7 +336,7 @@ LAW(L5_history, RC, 20000, 1000000, 200, "history with >=1 raising call and >=1 
 }
 
 // ------------------------------------------------------------------ L6 auto-correcting parameter
-LAW(L6_autoparameter, RC, 20000, 1000000, 24, "request outside an open end") {
+LAW(L6_autoparameter, RC, 20000, 1000000, 40, "request outside an open end") {
   Iv i;
   i.lo = c.flag() ? static_cast<double>(c.zig(20)) : c.real(-1e3, 1e3);
   double w = c.pick({1e-9, 1e-6, 1.0, 7.5, 100.0}) * (1 + c.unit());
@@ -342,8 +347,11 @@ LAW(L6_autoparameter, RC, 20000, 1000000, 24, "request outside an open end") {
   i.il = c.flag(); i.iu = c.flag();
   // start value strictly inside
   double start = std::isinf(i.lo) ? i.hi - 1 : std::isinf(i.hi) ? i.lo + 1 : i.lo / 2 + i.hi / 2;
-  AutoParameter ap("a", start, mk(i)); ap.setMessageHandler(nullptr);
-  c.desc << "auto " << show(i) << " start " << vf::dec(start) << " requests";
+  // the constraint's own precision is the step taken inside an open bound (default 1e-12; also non-default values)
+  double cprec = c.pick({1e-12, 1e-12, 1e-6, 1e-3, 1e-10});
+  if (std::isfinite(i.lo) && std::isfinite(i.hi) && i.hi - i.lo < 4 * cprec) cprec = 1e-12;
+  AutoParameter ap("a", start, make_shared<IntervalConstraint>(i.lo, i.hi, i.il, i.iu, cprec)); ap.setMessageHandler(nullptr);
+  c.desc << "auto " << show(i) << " constraint precision " << cprec << " start " << vf::dec(start) << " requests";
   int n = c.irange(1, 4); bool outsideOpen = false;
   for (int k = 0; k < n; ++k) {
     double x;
@@ -357,8 +365,8 @@ LAW(L6_autoparameter, RC, 20000, 1000000, 24, "request outside an open end") {
     c.desc << " " << vf::dec(x);
     double expect;
     if (acc(i, x)) expect = x;
-    else if (x <= i.lo) { expect = i.il ? i.lo : i.lo + 1e-12; if (!i.il) outsideOpen = true; }
-    else { expect = i.iu ? i.hi : i.hi - 1e-12; if (!i.iu) outsideOpen = true; }
+    else if (x <= i.lo) { expect = i.il ? i.lo : i.lo + cprec; if (!i.il) outsideOpen = true; }
+    else { expect = i.iu ? i.hi : i.hi - cprec; if (!i.iu) outsideOpen = true; }
     try { ap.setValue(x); }
     catch (std::exception& e) { CHECK(false, "AutoParameter::setValue(" << vf::dec(x) << ") raised " << e.what() << " for " << show(i)); }
     CHECK(acc(i, ap.getValue()), "AutoParameter ended on " << vf::dec(ap.getValue()) << " which " << show(i) << " rejects (request " << vf::dec(x) << ")");
